@@ -14,6 +14,7 @@ edition = "2018"
 [dependencies]
 nundb = { package = "nun-db", path = "%s" }
 futures = "0.3.1"
+ws = "0.9.2"
 
 [workspace]
 """
